@@ -38,7 +38,16 @@ fn take_site() -> String {
     let mut g = PANIC_SITE.lock().unwrap();
     let s = g.clone();
     g.clear();
-    if s.is_empty() { "?".into() } else { s.replace("/repo/", "") }
+    if s.is_empty() {
+        return "?".into();
+    }
+    // crate-relative, wherever the repository lives (a sandbox copy must give the same site names)
+    for c in ["autosar-data-specification/src/", "autosar-data/src/"] {
+        if let Some(k) = s.find(c) {
+            return s[k..].to_string();
+        }
+    }
+    s
 }
 fn set_current(s: &str) {
     if let Ok(mut g) = CURRENT.lock() {
